@@ -541,6 +541,11 @@ def _run(ctx: VerifyCtx, contract: Contract):
     # parameters not bound by the contract take their defaults
     a = fn.args
     params = [p.arg for p in a.posonlyargs + a.args + a.kwonlyargs]
+    if a.kwarg is not None:
+        params.append(a.kwarg.arg)          # `**data`: bound by the contract as a dict (or empty)
+        if a.kwarg.arg not in st.env:
+            from .values import DictObj as _DictObj
+            st.env[a.kwarg.arg] = st.alloc(_DictObj(items={}, fresh=True))
     defaults = dict(zip([p.arg for p in (a.posonlyargs + a.args)][len(a.posonlyargs + a.args) - len(a.defaults):], a.defaults))
     defaults.update({p.arg: d for p, d in zip(a.kwonlyargs, a.kw_defaults) if d is not None})
     for p in params:
